@@ -1,6 +1,7 @@
 package util
 
 import (
+	"strconv"
 	"unsafe"
 
 	"github.com/relex/gotils/logger"
@@ -67,4 +68,12 @@ func OverwriteNTruncate(main []byte, start int, tail string) []byte {
 	}
 	n := copy(main[start:], tail)
 	return main[:start+n]
+}
+
+// AppendKeyPart appends one part of a composite map key to buffer, preceded by its length, so that different lists of
+// parts never result in the same composite key, e.g. ("ab", "c") and ("a", "bc")
+func AppendKeyPart(buffer []byte, part string) []byte {
+	buffer = strconv.AppendInt(buffer, int64(len(part)), 10)
+	buffer = append(buffer, ':')
+	return append(buffer, part...)
 }
